@@ -147,6 +147,20 @@ func W[T any](p *T, site string) *T {
 	return p
 }
 
+// AppendHook is wrapped around the first argument of every append call: when the slice has spare
+// capacity, append writes the new element into the (possibly shared) backing array without allocating.
+func AppendHook[T any](s []T, site string) []T {
+	if t := cur(); t != nil && cap(s) > len(s) {
+		a := uintptr(unsafe.Pointer(&s[:cap(s)][len(s)]))
+		S.Logged++
+		S.log[a] = append(S.log[a], access{t.id, true, site})
+		if AllHot || Hot[site] {
+			S.park(Op{Kind: OpWrite, Addr: a, Site: site})
+		}
+	}
+	return s
+}
+
 // AtomicPoint is a scheduling point for an atomic operation (never a race candidate).
 func AtomicPoint(p unsafe.Pointer, site string) {
 	if t := cur(); t != nil {
